@@ -74,3 +74,10 @@ pub fn applytree(f: &[&str]) -> String {
     cleanup(&root);
     out
 }
+
+pub fn dispatch(f: &[&str]) -> Option<String> {
+    match f.first().copied() {
+        Some("applytree") => Some(applytree(&f[1..])),
+        _ => None,
+    }
+}
